@@ -49,7 +49,8 @@ UpMenu == << <<AckF, Compl>>, <<AckF, Req(34, 0), Compl>>, <<AckF, Req(35, 0), R
              <<AckF, Req(34, 0), AbortF>>, <<NackF>>, <<AckF, Inter, Compl>> >>
 
 FlatAlphabet == {AckF, Compl, SysInfo(V1), AbortF, Req(34, 0), NackF, TruncF}
-FlatScripts == UNION {[1..n -> FlatAlphabet] : n \in 0..FlatDepth}
+\* (a frame the connection ends in is the last one: bytes behind it would complete it)
+FlatScripts == {sc \in UNION {[1..n -> FlatAlphabet] : n \in 0..FlatDepth} : \A k \in 1..(Len(sc) - 1) : ~sc[k].trunc}
 
 Desired == {<<>>, <<D209>>, <<D2012>>, << <<>> >>}
 
